@@ -1,6 +1,8 @@
 package props
 
 import (
+	"os"
+	"sort"
 	"strings"
 
 	"verif/checker/internal/an"
@@ -63,6 +65,35 @@ func c18(c *Ctx) {
 	r.Rule("R18.W", "every big.Int.Bytes() in the SRP code is left-padded to 256 bytes before it is hashed or returned; B is padded before hashing", 6)
 	r.Rule("R18.V", "validation dominates use; its comparisons are 0<B, B<p, 248<=len(B)<=256; empty password returns first and maps to InputCheckPasswordEmpty", 7)
 	r.Rule("R18.N", "t.Add(t, p) is executed exactly on the t < 0 edge", 1)
+	// a refusal stays a refusal on its way to the caller: in every function between the validation and the exported
+	// entry point, once a callee has returned a non-nil error no exit with a nil error is reachable
+	r.Rule("R18.X", "per call of the SRP path whose error result is tested: with that error non-nil, no return with a nil error is reachable after the call (the refusal of an out-of-range B is not turned into the 'no password' answer)", 2)
+	{
+		var fns []*ssa.Function
+		for f := range c.P.AllFunctions() {
+			if f.Synthetic != "" || len(f.Blocks) == 0 {
+				continue
+			}
+			if load.FuncPkgPath(f) == load.SrpPkg || (load.FuncPkgPath(f) == load.TgPkg && f.Name() == "GetInputCheckPassword") {
+				fns = append(fns, f)
+			}
+		}
+		sort.Slice(fns, func(i, j int) bool { return fns[i].String() < fns[j].String() })
+		n := 0
+		for _, f := range fns {
+			n += c.errorsNotDropped("R18.X", f)
+		}
+		if n == 0 {
+			r.Undecide("R18.X", "error-kept", "", "no tested error result found on the SRP path")
+		}
+		if os.Getenv("VERIF_PROBE_ERRDROP") != "" {
+			for f := range c.P.AllFunctions() {
+				if c.inRepo(f) && len(f.Blocks) > 0 && f.Synthetic == "" {
+					c.errorsNotDropped("R18.X", f)
+				}
+			}
+		}
+	}
 	r.Rule("R18.B", "no function of package srp writes through a []byte parameter (salts, the password, B come from the caller's objects and are used again): no element store, copy, append onto it, nor a callee that does", 8)
 	c.paramsUntouched("R18.B", load.SrpPkg, nil)
 	r.Rule("R18.R", "the SRP ephemeral is drawn from crypto/rand", 1)
@@ -364,5 +395,139 @@ func c18Validate(c *Ctx, v *ssa.Function, tr *an.Tracer) {
 		}
 		un := an.Guarded(v, []an.Edge{*rw.edge}, nilRets)
 		r.Check(len(un) == 0 && len(nilRets) > 0, "R18.V", "range:"+rw.name, c.pos(v.Pos()), sprintf("%d accepting exits, %d reachable without %s", len(nilRets), len(un), rw.name))
+	}
+}
+
+// errorsNotDropped: for every call in f whose last result is an error that f tests against nil: on the paths that
+// leave the call with the tests of that error answering "non-nil", no return whose error result is the nil constant
+// is reachable.
+func (c *Ctx) errorsNotDropped(rule string, f *ssa.Function) int {
+	r := c.R
+	n := 0
+	if fr := f.Signature.Results(); fr.Len() == 0 || fr.At(fr.Len()-1).Type().String() != "error" {
+		return 0 // nothing to report success with
+	}
+	for _, cs := range an.Calls(f) {
+		call, ok := cs.Instr.(*ssa.Call)
+		if !ok {
+			continue
+		}
+		res := call.Call.Signature().Results()
+		if res.Len() == 0 || res.At(res.Len()-1).Type().String() != "error" {
+			continue
+		}
+		var errv ssa.Value
+		if res.Len() == 1 {
+			errv = call
+		} else {
+			for _, ref := range *call.Referrers() {
+				if ex, ok := ref.(*ssa.Extract); ok && ex.Index == res.Len()-1 {
+					errv = ex
+				}
+			}
+		}
+		if errv == nil {
+			continue
+		}
+		// the edges taken when the error is nil
+		cut := map[an.Edge]bool{}
+		for _, i := range an.Ifs(f) {
+			cd, ok := an.Classify(i)
+			if ok && cd.Kind == "nil" && cd.X == errv {
+				cut[cd.EdgeWhen(true)] = true
+			}
+		}
+		if len(cut) == 0 {
+			continue
+		}
+		n++
+		seen := map[*ssa.BasicBlock]bool{}
+		var bad []string
+		var walk func(b *ssa.BasicBlock)
+		walk = func(b *ssa.BasicBlock) {
+			for i, s := range b.Succs {
+				if cut[an.Edge{From: b, Succ: i}] || seen[s] {
+					continue
+				}
+				seen[s] = true
+				for _, in := range s.Instrs {
+					if ret, ok := an.AsReturn(in); ok && len(ret.Results) > 0 && an.IsNilConst(an.RetVal(ret, len(ret.Results)-1)) {
+						bad = append(bad, "the return at "+c.pos(ret.Pos())+" reports success although "+shortCallee(cs.Name)+" has failed")
+					}
+				}
+				walk(s)
+			}
+		}
+		walk(call.Block())
+		key := an.ShortName(f) + "/" + shortCallee(cs.Name)
+		if why, ok := absorbedErrors[key]; ok && len(bad) > 0 {
+			r.Hold(rule, sprintf("error-kept:%s#%d", key, n), c.pos(cs.Pos()), "absorbed on purpose: "+why)
+			continue
+		}
+		r.Check(len(bad) == 0, rule, sprintf("error-kept:%s#%d", key, n), c.pos(cs.Pos()), strings.Join(bad, "; "))
+	}
+	return n
+}
+
+// absorbedErrors: the call sites of the repository where a failure of the callee is, by design, not a failure of the
+// caller (read and confirmed one by one; every other tested error must reach the caller).
+var absorbedErrors = map[string]string{
+	"internal/encoding/tl.parseTag/(*github.com/fatih/structtag.Tags).Get":                "a field without a tl tag has no options: not an error",
+	"(*mtproto.MTProto).processResponse/(*mtproto.MTProto).SaveSession":                   "new_session_created: a failed save is reported on the Warnings channel and the loop goes on (C16)",
+	"(*telegram.Client).IsSessionRegistred/(*telegram.Client).UsersGetFullUser":           "a 401 answer is the negative answer of the question asked",
+	"internal/cmd/tlgen/tlparser.ParseSchema/internal/cmd/tlgen/tlparser.parseDefinition": "io.EOF ends the schema, errExcluded skips a built-in definition",
+	"mtproto.NewMTProto/invoke:(internal/session.SessionLoader).Load":                     "NotFound means a fresh client without a stored session",
+	"internal/keys.pemBytesToRsa/crypto/x509.ParsePKCS1PublicKey":                         "falls back to the PKIX form of the key",
+}
+
+// errorsKept: the error-propagation rule over a region: one obligation per call of a region function whose error
+// result the function tests - with that error present, no exit of the function reports success.
+func (c *Ctx) errorsKept(rule, what string, floor int, pred func(f *ssa.Function) bool) {
+	r := c.R
+	r.Rule(rule, "error discipline of "+what+": for every call whose error result is tested, no return with a nil error is reachable on the paths where that error is non-nil (the absorbed errors are an explicit table of six call sites with reasons)", floor)
+	var fns []*ssa.Function
+	for f := range c.P.AllFunctions() {
+		if f.Synthetic != "" || len(f.Blocks) == 0 || !c.inRepo(f) || !pred(f) {
+			continue
+		}
+		fns = append(fns, f)
+	}
+	sort.Slice(fns, func(i, j int) bool { return fns[i].String() < fns[j].String() })
+	n := 0
+	for _, f := range fns {
+		n += c.errorsNotDropped(rule, f)
+	}
+	if n == 0 {
+		r.Undecide(rule, "error-kept", "", "no tested error result found in "+what)
+	}
+}
+
+func inPkgs(pkgs ...string) func(f *ssa.Function) bool {
+	return func(f *ssa.Function) bool {
+		pp := load.FuncPkgPath(f)
+		for _, p := range pkgs {
+			if pp == p {
+				return true
+			}
+		}
+		return false
+	}
+}
+
+func rootMethods(names ...string) func(f *ssa.Function) bool {
+	return func(f *ssa.Function) bool {
+		if load.FuncPkgPath(f) != load.RootMod {
+			return false
+		}
+		top := f
+		for top.Parent() != nil {
+			top = top.Parent()
+		}
+		for _, n := range names {
+			if top.Name() == n {
+				return true
+			}
+		}
+		return false
 	}
 }
